@@ -110,6 +110,16 @@ Spans(q, i, cnt) == IF cnt = 0 THEN <<>> ELSE
 Elems(kind, q, i, n) == IF kind = "dict"
                         THEN LET s == Spans(q, i, 2 * n) IN {s[2 * j - 1] \o s[2 * j] : j \in 1..n}
                         ELSE LET s == Spans(q, i, n) IN {s[j] : j \in 1..n}
+(* text floats inside an unordered container: the reader cannot turn decimal text into IEEE bytes, so both sides  *)
+(* are compared with float payloads blurred and the texts / logged bytes are printed ("F2") for the driver, which    *)
+(* checks with the host's float() that they denote the same multiset of values                                      *)
+IsTextNum(t) == t.k \in {"floatt", "complext"}
+Blur(t) == IF t.k \in {"floatt", "float"} THEN [k |-> "float", n |-> 0, b |-> <<>>]
+           ELSE IF t.k \in {"complext", "complex"} THEN [k |-> "complex", n |-> 0, b |-> <<>>] ELSE t
+BlurSeq(q) == [i \in 1..Len(q) |-> Blur(q[i])]
+HasTextNum(q) == \E i \in 1..Len(q) : IsTextNum(q[i])
+Nums(q) == SelectSeq(q, LAMBDA t : t.k \in {"floatt", "float", "complext", "complex"})
+
 (* equality of two complete spans; a top-level unordered container compares its elements as a set *)
 SpanEq(a, b) == IF a # <<>> /\ b # <<>> /\ Unordered(a[1].k) /\ a[1].k = b[1].k /\ a[1].n = b[1].n
                    /\ SpansLen(a, 2, IF a[1].k = "dict" THEN 2 * a[1].n ELSE a[1].n) = Len(a) - 1
@@ -365,8 +375,12 @@ Close ==
              IN IF fr.kind = "dict" /\ Tok[fr.ts].n # n THEN Hard("arity", n, Tok[fr.ts].n)
                 ELSE IF k + llen - 1 > Len(Tok) THEN Hard("tokens", "elements", "log ended")
                 ELSE IF SpansLen(built, 1, per) # Len(built) THEN Hard("unsupported", "flat unordered container", "nested shape")
-                ELSE /\ bad' = IF Elems(fr.kind, built, 1, n) = Elems(fr.kind, Tok, k, n) THEN bad
+                ELSE /\ bad' = IF (IF HasTextNum(built)
+                                   THEN Elems(fr.kind, BlurSeq(built), 1, n) = Elems(fr.kind, BlurSeq(SubSeq(Tok, k, k + llen - 1)), 1, n)
+                                   ELSE Elems(fr.kind, built, 1, n) = Elems(fr.kind, Tok, k, n))
+                               THEN bad
                                ELSE Append(bad, V("elements", [kind |-> fr.kind, n |-> n], "differ as sets"))
+                     /\ (HasTextNum(built) => PrintT(<<"F2", ToJson([tid |-> tid, texts |-> Nums(built), floats |-> Nums(SubSeq(Tok, k, k + llen - 1))])>>))
                      /\ k' = k + llen
                      /\ refs' = IF fr.slot # 0 THEN [refs EXCEPT ![fr.slot] = [s |-> fr.ts, e |-> k + llen]] ELSE refs
                      /\ built' = <<>>
